@@ -955,6 +955,7 @@ def cl8(P, C):
         name = ("evaluator::" if is_ev else "table::") + "%s<%s>" % (f.name, ",".join(str(t) for t in f.targs) or (re.findall(r"evaluator_type<(\w*)>", f.cls or "") or [""])[0])
         sites = [i for i, cal in f.calls() if cal and cal["name"] == "bspline_deriv"]
         raw = [i for i in sites if f.render(f.args(i)[1]).replace(" ", "") == "x[n]"]
+        partial = []
         # accepted idiom: a local copy of x[n] moved one ulp into the centre's interval when it equals that interval's upper knot
         for i in sites:
             a1 = f.strip(f.args(i)[1])
@@ -969,14 +970,28 @@ def cl8(P, C):
                     cnd = f.render(f.nodes[g[0]]["cond"]).replace(" ", "").replace("this->", "").replace("table.", "") if g else ""
                     rhs = f.render(ap[1]).replace(" ", "").replace("this->", "").replace("table.", "")
                     nm_ = f.var_name(vid)
-                    if cnd == "(%s==knots[n][(centers[n]+1)])" % nm_ and rhs.endswith("nextafter(%s,knots[n][centers[n]])" % nm_):
+                    if not rhs.endswith("nextafter(%s,knots[n][centers[n]])" % nm_):
+                        continue
+                    # the adjustment must cover every knot from the centre's upper knot upwards (the last supported point, the knots
+                    # inside the upper margin, the last knot): x >= knots[c+1] and x is one of knots[c+1 .. nknots-1]
+                    conn, leaves = core.cond_leaves(f, f.nodes[g[0]]["cond"]) if g else ("", [])
+                    lt = [f.render(x).replace(" ", "").replace("this->", "").replace("table.", "") for x in leaves]
+                    at_or_above = "(knots[n][(centers[n]+1)]<=%s)" % nm_ in lt
+                    member = any(t in ("binary_search((&knots[n][(centers[n]+1)]),((&knots[n][0])+nknots[n]),%s)" % nm_,
+                                       "binary_search((&knots[n][(centers[n]+1)]),(&knots[n][nknots[n]]),%s)" % nm_) for t in lt)
+                    if conn == "&&" and at_or_above and member and len(lt) == 2:
                         adj = True
+                    elif cnd == "(%s==knots[n][(centers[n]+1)])" % nm_:
+                        partial.append(i)
             if not adj:
                 raw.append(i)
         n += 1
         ok = not (A and B and raw)
         C.ob("CL-8", name, "one-sided-convention", ok, f.loc(raw[0]) if raw else f.where(),
              "no unadjusted hand-over of the coordinate to the recursive reference" if ok else
+             "the coordinate is moved into the left-hand piece only when it equals the centre's upper knot (the last supported point): at a knot "
+             "inside the upper margin and at the last knot — which lookup also assigns to that centre — bspline_deriv still takes the right-hand "
+             "piece (0 at the last knot)" if partial and set(raw) <= set(partial) else
              "x[n] goes unchanged into bspline_deriv (right-hand piece at a knot) although lookup put the upper end of the supported range into "
              "the interval on its left: at exactly that point a derivative of order == spline order (>= 2) comes from the wrong piece")
     if n == 0:
